@@ -31,7 +31,7 @@ ASSUMPTIONS = [
     "mixed content/wildcards only with indent=None (documented exception)",
     "encoding fixed to UTF-8; user converters, class_factory, globalns, plugins not covered",
 ]
-MIN_DISTINCT = {"quick": 1500, "thorough": 40000}
+MIN_DISTINCT = {"quick": 20000, "thorough": 300000}
 TIME = {"quick": 45, "thorough": 600}
 REQUIRED_HOOKS = ("NodeParser.parse:end-state",)
 
@@ -143,7 +143,7 @@ def replay(witness, ctx):
 
 def run_shard(ctx):
     install_hooks(ctx)
-    n_models = ctx.per_shard(ctx.pick(500, 14000))
+    n_models = ctx.per_shard(ctx.pick(7000, 160000))
     min_d = MIN_DISTINCT[ctx.tier] // ctx.nshards + 1
     k = 0
     while k < n_models and (ctx.time_left() > 0 or len(ctx.fingerprints) < min_d):
